@@ -32,13 +32,24 @@ Proof.
   assert (Ez : cpar (r, c) l z = true).
   { unfold cpar, l. rewrite par_app, last_cons, Lp. cbn [par].
     assert (F1 : crossU z (r, c) u = false).
-    { destruct Hu as [-> | ->]; unfold crossU, inR, z; cbn [fst snd]; boolcases. }
+    { destruct Hu as [-> | ->]; unfold crossU, inR, z; cbn [fst snd].
+      - assert (H1 : (r =? r - 1) = false) by (apply Z.eqb_neq; lia). assert (H2 : (c <? c - 1) = false) by (apply Z.ltb_ge; lia).
+        rewrite H1, H2. rewrite !andb_false_r. reflexivity.
+      - assert (H1 : (r =? r - 1) = false) by (apply Z.eqb_neq; lia). assert (H2 : (c <? c - 1) = false) by (apply Z.ltb_ge; lia).
+        rewrite H1, H2. rewrite !andb_false_r. reflexivity. }
     assert (F2 : par (crossU z) u lp = false).
     { apply (par_false ok); [exact Cp|]. intros [ai aj] [bi bj] [Ha Na] [Hb Nb] A. apply adj8_coords in A.
       pose proof (Last _ Ha) as La. pose proof (Last _ Hb) as Lb. unfold ltr in La, Lb. cbn [fst snd] in *.
       assert (Na' : ai <> r \/ aj <> c) by (destruct (Z.eq_dec ai r), (Z.eq_dec aj c); subst; auto; congruence).
       assert (Nb' : bi <> r \/ bj <> c) by (destruct (Z.eq_dec bi r), (Z.eq_dec bj c); subst; auto; congruence).
-      unfold crossU, inR, z; cbn [fst snd]. boolcases. }
+      unfold crossU, inR, z; cbn [fst snd].
+      assert (H1 : (ai =? r - 1) && (c <? aj) && (bi =? r - 1 + 1) = false).
+      { destruct (Z.eqb_spec ai (r - 1)); [|reflexivity]. destruct (Z.ltb_spec c aj); [|reflexivity].
+        destruct (Z.eqb_spec bi (r - 1 + 1)); [|reflexivity]. exfalso. lia. }
+      assert (H2 : (bi =? r - 1) && (c <? bj) && (ai =? r - 1 + 1) = false).
+      { destruct (Z.eqb_spec bi (r - 1)); [|reflexivity]. destruct (Z.ltb_spec c bj); [|reflexivity].
+        destruct (Z.eqb_spec ai (r - 1 + 1)); [|reflexivity]. exfalso. lia. }
+      rewrite H1, H2. reflexivity. }
     assert (F3 : crossU z b (r, c) = true).
     { unfold crossU, inR, z, b; cbn [fst snd]. apply orb_true_iff. left.
       rewrite !andb_true_iff, !Z.eqb_eq, Z.ltb_lt. lia. }
@@ -46,6 +57,9 @@ Proof.
   assert (Eo : cpar (r, c) l o = false).
   { unfold cpar. apply (par_false (fun q => X q = true)); [exact Cl|]. intros [ai aj] [bi bj] Ha Hb A.
     pose proof (Last _ Ha) as La. pose proof (Last _ Hb) as Lb. unfold ltr in La, Lb. cbn [fst snd] in *.
-    unfold crossU, inR, o; cbn [fst snd]. boolcases. }
+    unfold crossU, inR, o; cbn [fst snd].
+    assert (H1 : (ai =? r + 1) = false) by (apply Z.eqb_neq; lia).
+    assert (H2 : (bi =? r + 1) = false) by (apply Z.eqb_neq; lia).
+    rewrite H1, H2. reflexivity. }
   congruence.
 Qed.
